@@ -38,12 +38,30 @@ pub enum Outcome {
     Inconclusive(String),
 }
 
-pub fn make_world(cfg: &Cfg, rng: Option<&mut Rng>) -> Result<Box<dyn World>, String> {
-    Ok(match cfg.world {
-        WorldKind::Key => Box::new(KeyWorld::new(cfg.clone(), rng)),
-        WorldKind::Map | WorldKind::Set => Box::new(OrdWorld::new(cfg.clone(), rng)),
-        WorldKind::Seg => Box::new(SegWorld::new(cfg.clone(), rng)?),
-    })
+/// Construct the world. The constructors of the collections are calls into
+/// iTree like any other: they run under the same guard (a panic or abort in a
+/// constructor given in-contract arguments is a C10 matter, not a harness error).
+pub fn make_world(cfg: &Cfg, rng: Option<&mut Rng>, ctx: &mut RunCtx) -> Result<Box<dyn World>, Stop> {
+    let coll: &'static str = match cfg.world {
+        WorldKind::Key => "KeyExpTree/KeyExpList",
+        WorldKind::Map => "MapTree/MapList",
+        WorldKind::Set => "SetTree/SetList",
+        WorldKind::Seg => "SegExpTree",
+    };
+    ctx.op_index = 0;
+    let c = cfg.clone();
+    let (r, _) = call(ctx, cfg, coll, "new", "new", false, None, None, move || -> Result<Box<dyn World>, String> {
+        Ok(match c.world {
+            WorldKind::Key => Box::new(KeyWorld::new(c.clone(), rng)),
+            WorldKind::Map | WorldKind::Set => Box::new(OrdWorld::new(c.clone(), rng)),
+            WorldKind::Seg => Box::new(SegWorld::new(c.clone(), rng)?),
+        })
+    })?;
+    match r {
+        Called::Ok(Ok(w)) => Ok(w),
+        Called::Ok(Err(e)) => Err(Stop::Inconclusive(e)),
+        Called::Injected => Err(Stop::Inconclusive("injected panic during construction".into())),
+    }
 }
 
 /// Upper bound on generated history length (set for the Miri spot check, where a run costs seconds).
@@ -110,9 +128,10 @@ pub fn generate(prop: &str, master: u64, index: u64, thorough: bool, ctx: &mut R
     let mut trace = Trace { cfg: cfg.clone(), steps: Vec::new() };
     log_line(ctx, &format!("cfg {}", cfg.to_json().to_string()));
     crate::instr::registry_reset();
-    let mut world = match make_world(&cfg, Some(&mut r)) {
+    let mut world = match make_world(&cfg, Some(&mut r), ctx) {
         Ok(w) => w,
-        Err(e) => return (trace, Outcome::Inconclusive(e)),
+        Err(Stop::Fail(f)) => return (trace, Outcome::Fail(f, 0)),
+        Err(Stop::Inconclusive(e)) => return (trace, Outcome::Inconclusive(e)),
     };
     let preset: Option<Vec<Step>> = if plan.bulk.is_some() { Some(bulk_steps(&plan, &mut r)) } else { None };
     let len = preset.as_ref().map(|p| p.len()).unwrap_or(plan.len.min(MAX_LEN.load(std::sync::atomic::Ordering::Relaxed)));
@@ -194,9 +213,10 @@ fn replay_inner(trace: &Trace, ctx: &mut RunCtx) -> (Outcome, Vec<Step>) {
     let mut executed = Vec::new();
     log_line(ctx, &format!("cfg {}", trace.cfg.to_json().to_string()));
     crate::instr::registry_reset();
-    let mut world = match make_world(&trace.cfg, None) {
+    let mut world = match make_world(&trace.cfg, None, ctx) {
         Ok(w) => w,
-        Err(e) => return (Outcome::Inconclusive(e), executed),
+        Err(Stop::Fail(f)) => return (Outcome::Fail(f, 0), executed),
+        Err(Stop::Inconclusive(e)) => return (Outcome::Inconclusive(e), executed),
     };
     for step in &trace.steps {
         if !world.legal(&step.op) {
